@@ -134,16 +134,16 @@ Proof.
     set (s5 := set (NSst x) (mkFile [CkSst x] 1) s4).
     assert (Hg5 : Good s5 E).
     { apply (good_add_sst s4 s5 x E); [apply wf_set, Hg4| |exact Hg4]. intros n _. unfold s5. now rewrite lookup_set. }
-    change ((COpenAppend NMani, Must) :: (CWrite NMani (CkEdit [x] []), Must) :: (CSync NMani, Must) ::
+    change ((COpenAppend NMani, Must) :: (CWrite NMani (CkEditL [x] [] (Some (v_cur v))), Must) :: (CSync NMani, Must) ::
             (CUnlink (NTmp x), Must) :: (CRename (NLog (v_cur v)) (NTrashLog (v_cur v)), Must) :: nil)
-      with (must (mani_apply (CkEdit [x] [])) ++ must [CUnlink (NTmp x); CRename (NLog (v_cur v)) (NTrashLog (v_cur v))]).
+      with (must (mani_apply (CkEditL [x] [] (Some (v_cur v)))) ++ must [CUnlink (NTmp x); CRename (NLog (v_cur v)) (NTrashLog (v_cur v))]).
     apply walk_app_must.
     assert (Hstrs5 : mani_strs s5 = v_files v).
     { rewrite <- Hstrs. unfold mani_strs, mani_edits, s5. rewrite lookup_set. cbn [name_eqb]. now rewrite Ho4 by discriminate. }
     assert (Hlog5 : forall n, lookup (NLog n) s5 = if n =? v_seq v then Some empty_file else lookup (NLog n) s).
     { intros n. unfold s5. rewrite lookup_set. cbn [name_eqb]. destruct (N.eqb_spec n (v_seq v)) as [->|Hne]; [exact Hl4|].
       apply Ho4; [discriminate|congruence]. }
-    eapply walk_conseq; [|apply (mani_block [x] [] s5 E E None Hg5)].
+    eapply walk_conseq; [|apply (mani_block [x] [] (Some (v_cur v)) s5 E E None Hg5)].
     + cbn beta. intros s8 (Hg8 & Hstrs8 & Hm8 & Ho8).
       cbn [must map].
       apply walk_must_cons; [now apply good_safe|]. intros s9 E9.
@@ -161,7 +161,8 @@ Proof.
         destruct (name_eqb n (NTrashLog (v_cur v))) eqn:En; [apply name_eqb_eq in En; subst n; discriminate|reflexivity]. }
       assert (Hw10 : wf s10) by (unfold s10; apply wf_set, wf_remove, Hg9).
       assert (Hstrs9 : mani_strs s9 = apply_edit (v_files v) (CkEdit [x] [])).
-      { rewrite <- Hstrs5, <- Hstrs8. unfold mani_strs, mani_edits. now rewrite (Hl9 NMani eq_refl). }
+      { rewrite <- Hstrs5. change (apply_edit (mani_strs s5) (CkEdit [x] [])) with (apply_edit (mani_strs s5) (CkEditL [x] [] (Some (v_cur v)))).
+        rewrite <- Hstrs8. unfold mani_strs, mani_edits. now rewrite (Hl9 NMani eq_refl). }
       assert (Hlog9 : forall n, lookup (NLog n) s9 = if n =? v_seq v then Some empty_file else lookup (NLog n) s).
       { intros n. rewrite (Hl9 (NLog n) eq_refl), Ho8 by discriminate. apply Hlog5. }
       assert (Hcs : v_cur v <> v_seq v) by (intros Heq; rewrite <- Heq in Nseq; congruence).
